@@ -493,7 +493,11 @@ package graphql
 //@   call outputNode.Fill#1 assert arg0 == destinations[idx] && (arg1 is []interface{})
 //@   call outputNode.Fill#2 assert arg0 == destinations[idx] && (arg1 is []interface{}) && arg1 == any(respList)
 //@   call outputNode.Fill ghost filled[idx] = true
-//@   call newOutputNode assert arg0 == destinations[idx]
+// C16: the path segment of a list element is its index in its own list
+//@   ghost seg string
+//@   call Itoa assert arg0 == i
+//@   call Itoa ghost seg = ret0
+//@   call newOutputNode assert arg0 == destinations[idx] && arg1 == seg
 //@   call resolveBatch assert arg2 == typ.Type && arg3 == selectionSet && len(arg1) == len(arg4)
 //@   loop 1 invariant -1 <= rangeindex && rangeindex < len(sources) && len(reflectedSources) == len(sources)
 //@   loop 2 invariant -1 <= rangeindex && rangeindex < len(reflectedSources) && len(reflectedSources) == len(sources) && len(flattenedResps) == len(flattenedSources)
@@ -525,3 +529,17 @@ package graphql
 //@   call conn.handleSubscribe assert e.Type == "subscribe" && arg1 == e
 //@   call conn.closeSubscription assert e.Type == "unsubscribe" && arg0 == c && arg1 == e.ID
 //@   call conn.handleMutate assert e.Type == "mutate" && arg1 == e
+
+// ---- C16: what a client-safe error discloses is exactly the message its constructor was given - never the text of the
+// error it wraps. The sanitised text of a SafeError / ClientError is its own message field.
+//@ func WrapAsSafeError
+//@   assigns nothing
+//@   ghost msg string
+//@   call Sprintf ghost msg = ret0
+//@   ensures (result is SafeError) && result.(SafeError).message == msg && result.(SafeError).inner == err
+//@ func SafeError.SanitizedError
+//@   assigns nothing
+//@   ensures result == e.message
+//@ func ClientError.SanitizedError
+//@   assigns nothing
+//@   ensures result == e.message
